@@ -19,14 +19,14 @@ import (
 	"verifharness/internal/report"
 )
 
-func errCls(err error) string {
+func keyErrCls(err error) string {
 	if err != nil {
 		return "err"
 	}
 	return "ok"
 }
 
-func dynCls(k any, err error) string {
+func keyDynCls(k any, err error) string {
 	if err != nil {
 		return "err"
 	}
@@ -39,7 +39,7 @@ func dynCls(k any, err error) string {
 	return "ok other"
 }
 
-func kbOf(o kmip.Object) *kmip.KeyBlock {
+func keyKbOf(o kmip.Object) *kmip.KeyBlock {
 	switch v := o.(type) {
 	case *kmip.SecretData:
 		return &v.KeyBlock
@@ -66,82 +66,85 @@ type keyAcc struct {
 
 var keyAccs = []keyAcc{
 	{"kb.material", "sd sk pu pr sp pg", false, func(pl *payloads.GetResponsePayload) string {
-		_, err := kbOf(pl.Object).GetMaterial()
-		return errCls(err)
+		_, err := keyKbOf(pl.Object).GetMaterial()
+		return keyErrCls(err)
 	}},
-	{"kb.bytes", "sd sk pu pr sp pg", false, func(pl *payloads.GetResponsePayload) string { _, err := kbOf(pl.Object).GetBytes(); return errCls(err) }},
+	{"kb.bytes", "sd sk pu pr sp pg", false, func(pl *payloads.GetResponsePayload) string {
+		_, err := keyKbOf(pl.Object).GetBytes()
+		return keyErrCls(err)
+	}},
 	{"kb.attrs", "sd sk pu pr sp pg", false, func(pl *payloads.GetResponsePayload) string {
-		return fmt.Sprintf("ok %d", len(kbOf(pl.Object).GetAttributes()))
+		return fmt.Sprintf("ok %d", len(keyKbOf(pl.Object).GetAttributes()))
 	}},
 	{"secret.data", "sd", false, func(pl *payloads.GetResponsePayload) string {
 		_, err := pl.Object.(*kmip.SecretData).Data()
-		return errCls(err)
+		return keyErrCls(err)
 	}},
 	{"sym.material", "sk", false, func(pl *payloads.GetResponsePayload) string {
 		_, err := pl.Object.(*kmip.SymmetricKey).KeyMaterial()
-		return errCls(err)
+		return keyErrCls(err)
 	}},
 	{"pub.rsa", "pu", false, func(pl *payloads.GetResponsePayload) string {
 		k, err := pl.Object.(*kmip.PublicKey).RSA()
-		return dynCls(k, err)
+		return keyDynCls(k, err)
 	}},
 	{"pub.ecdsa", "pu", false, func(pl *payloads.GetResponsePayload) string {
 		k, err := pl.Object.(*kmip.PublicKey).ECDSA()
-		return dynCls(k, err)
+		return keyDynCls(k, err)
 	}},
 	{"pub.crypto", "pu", false, func(pl *payloads.GetResponsePayload) string {
 		k, err := pl.Object.(*kmip.PublicKey).CryptoPublicKey()
-		return dynCls(k, err)
+		return keyDynCls(k, err)
 	}},
 	{"pub.pem", "pu", true, func(pl *payloads.GetResponsePayload) string {
 		_, err := pl.Object.(*kmip.PublicKey).PkixPem()
-		return errCls(err)
+		return keyErrCls(err)
 	}},
 	{"priv.rsa", "pr", false, func(pl *payloads.GetResponsePayload) string {
 		k, err := pl.Object.(*kmip.PrivateKey).RSA()
-		return dynCls(k, err)
+		return keyDynCls(k, err)
 	}},
 	{"priv.ecdsa", "pr", false, func(pl *payloads.GetResponsePayload) string {
 		k, err := pl.Object.(*kmip.PrivateKey).ECDSA()
-		return dynCls(k, err)
+		return keyDynCls(k, err)
 	}},
 	{"priv.crypto", "pr", false, func(pl *payloads.GetResponsePayload) string {
 		k, err := pl.Object.(*kmip.PrivateKey).CryptoPrivateKey()
-		return dynCls(k, err)
+		return keyDynCls(k, err)
 	}},
 	{"priv.pem", "pr", true, func(pl *payloads.GetResponsePayload) string {
 		_, err := pl.Object.(*kmip.PrivateKey).Pkcs8Pem()
-		return errCls(err)
+		return keyErrCls(err)
 	}},
 	{"cert.x509", "ce", false, func(pl *payloads.GetResponsePayload) string {
 		_, err := pl.Object.(*kmip.Certificate).X509Certificate()
-		return errCls(err)
+		return keyErrCls(err)
 	}},
 	{"cert.pem", "ce", false, func(pl *payloads.GetResponsePayload) string {
 		_, err := pl.Object.(*kmip.Certificate).PemCertificate()
-		return errCls(err)
+		return keyErrCls(err)
 	}},
-	{"get.secret", "*", false, func(pl *payloads.GetResponsePayload) string { _, err := pl.Secret(); return errCls(err) }},
-	{"get.secretstring", "*", false, func(pl *payloads.GetResponsePayload) string { _, err := pl.SecretString(); return errCls(err) }},
-	{"get.sym", "*", false, func(pl *payloads.GetResponsePayload) string { _, err := pl.SymmetricKey(); return errCls(err) }},
-	{"get.x509", "*", false, func(pl *payloads.GetResponsePayload) string { _, err := pl.X509Certificate(); return errCls(err) }},
-	{"get.pemcert", "*", false, func(pl *payloads.GetResponsePayload) string { _, err := pl.PemCertificate(); return errCls(err) }},
-	{"get.rsapriv", "*", false, func(pl *payloads.GetResponsePayload) string { k, err := pl.RsaPrivateKey(); return dynCls(k, err) }},
-	{"get.ecdsapriv", "*", false, func(pl *payloads.GetResponsePayload) string { k, err := pl.EcdsaPrivateKey(); return dynCls(k, err) }},
+	{"get.secret", "*", false, func(pl *payloads.GetResponsePayload) string { _, err := pl.Secret(); return keyErrCls(err) }},
+	{"get.secretstring", "*", false, func(pl *payloads.GetResponsePayload) string { _, err := pl.SecretString(); return keyErrCls(err) }},
+	{"get.sym", "*", false, func(pl *payloads.GetResponsePayload) string { _, err := pl.SymmetricKey(); return keyErrCls(err) }},
+	{"get.x509", "*", false, func(pl *payloads.GetResponsePayload) string { _, err := pl.X509Certificate(); return keyErrCls(err) }},
+	{"get.pemcert", "*", false, func(pl *payloads.GetResponsePayload) string { _, err := pl.PemCertificate(); return keyErrCls(err) }},
+	{"get.rsapriv", "*", false, func(pl *payloads.GetResponsePayload) string { k, err := pl.RsaPrivateKey(); return keyDynCls(k, err) }},
+	{"get.ecdsapriv", "*", false, func(pl *payloads.GetResponsePayload) string { k, err := pl.EcdsaPrivateKey(); return keyDynCls(k, err) }},
 	{"get.priv", "*", false, func(pl *payloads.GetResponsePayload) string {
 		var k crypto.PrivateKey
 		k, err := pl.PrivateKey()
-		return dynCls(k, err)
+		return keyDynCls(k, err)
 	}},
-	{"get.pempriv", "*", true, func(pl *payloads.GetResponsePayload) string { _, err := pl.PemPrivateKey(); return errCls(err) }},
-	{"get.rsapub", "*", false, func(pl *payloads.GetResponsePayload) string { k, err := pl.RsaPublicKey(); return dynCls(k, err) }},
-	{"get.ecdsapub", "*", false, func(pl *payloads.GetResponsePayload) string { k, err := pl.EcdsaPublicKey(); return dynCls(k, err) }},
+	{"get.pempriv", "*", true, func(pl *payloads.GetResponsePayload) string { _, err := pl.PemPrivateKey(); return keyErrCls(err) }},
+	{"get.rsapub", "*", false, func(pl *payloads.GetResponsePayload) string { k, err := pl.RsaPublicKey(); return keyDynCls(k, err) }},
+	{"get.ecdsapub", "*", false, func(pl *payloads.GetResponsePayload) string { k, err := pl.EcdsaPublicKey(); return keyDynCls(k, err) }},
 	{"get.pub", "*", false, func(pl *payloads.GetResponsePayload) string {
 		var k crypto.PublicKey
 		k, err := pl.PublicKey()
-		return dynCls(k, err)
+		return keyDynCls(k, err)
 	}},
-	{"get.pempub", "*", true, func(pl *payloads.GetResponsePayload) string { _, err := pl.PemPublicKey(); return errCls(err) }},
+	{"get.pempub", "*", true, func(pl *payloads.GetResponsePayload) string { _, err := pl.PemPublicKey(); return keyErrCls(err) }},
 }
 
 func (a *keyAcc) applies(kind string) bool {
@@ -156,11 +159,11 @@ func (a *keyAcc) applies(kind string) bool {
 	return false
 }
 
-// accessCase applies every applicable accessor to the payload. `pemModel`: the PEM helpers are compared with
+// keyAccessCase applies every applicable accessor to the payload. `pemModel`: the PEM helpers are compared with
 // the model too (otherwise only the no-panic oracle applies to them).
-func accessCase(env *keyEnv, pl *payloads.GetResponsePayload, pemModel bool, origin string, only string) {
+func keyAccessCase(env *keyEnv, pl *payloads.GetResponsePayload, pemModel bool, origin string, only string) {
 	ctx := env.ctx
-	o := objFromGo(pl.Object)
+	o := keyObjFromGo(pl.Object)
 	if o == nil {
 		ctx.Res.Fail(fmt.Sprintf("key: cannot abstract an object of type %T", pl.Object))
 		return
@@ -196,9 +199,9 @@ func accessCase(env *keyEnv, pl *payloads.GetResponsePayload, pemModel bool, ori
 	}
 }
 
-// transportPayload sends a Get response through an encoding at a version; ok=false when the payload is not
+// keyTransportPayload sends a Get response through an encoding at a version; ok=false when the payload is not
 // encodable / not decodable (then it is not a "decodable object").
-func transportPayload(enc keyEnc, ver kmip.ProtocolVersion, pl *payloads.GetResponsePayload) (*payloads.GetResponsePayload, bool) {
+func keyTransportPayload(enc keyEnc, ver kmip.ProtocolVersion, pl *payloads.GetResponsePayload) (*payloads.GetResponsePayload, bool) {
 	msg := &kmip.ResponseMessage{
 		Header: kmip.ResponseHeader{ProtocolVersion: ver, TimeStamp: time.Unix(1700000000, 0), BatchCount: 1},
 		BatchItem: []kmip.ResponseBatchItem{{Operation: kmip.OperationGet, ResultStatus: kmip.ResultStatusSuccess,
@@ -217,16 +220,16 @@ func transportPayload(enc keyEnc, ver kmip.ProtocolVersion, pl *payloads.GetResp
 	return out, ok && out != nil
 }
 
-type genShape struct {
-	o        *shObj
+type keyGenShape struct {
+	o        *keyShObj
 	pemModel bool
 }
 
-func bp(b []byte) *[]byte { return &b }
+func keyBp(b []byte) *[]byte { return &b }
 
-// genShapes enumerates the objects of the accessor-totality part.
-func genShapes(env *keyEnv) []genShape {
-	var out []genShape
+// keyGenShapes enumerates the objects of the accessor-totality part.
+func keyGenShapes(env *keyEnv) []keyGenShape {
+	var out []keyGenShape
 	bl := env.blobs
 	rk := env.shapeRSA
 	formats := []uint32{}
@@ -234,9 +237,9 @@ func genShapes(env *keyEnv) []genShape {
 		formats = append(formats, f)
 	}
 	formats = append(formats, 99)
-	add := func(o *shObj, pem bool) { out = append(out, genShape{o, pem}) }
-	validRsaPriv := func() *shRsaPriv {
-		return &shRsaPriv{n: rk.N, d: rk.D, e: big.NewInt(int64(rk.E)), p: rk.Primes[0], q: rk.Primes[1], dp: rk.Precomputed.Dp, dq: rk.Precomputed.Dq, qi: rk.Precomputed.Qinv}
+	add := func(o *keyShObj, pem bool) { out = append(out, keyGenShape{o, pem}) }
+	validRsaPriv := func() *keyShRsaPriv {
+		return &keyShRsaPriv{n: rk.N, d: rk.D, e: big.NewInt(int64(rk.E)), p: rk.Primes[0], q: rk.Primes[1], dp: rk.Precomputed.Dp, dq: rk.Precomputed.Dq, qi: rk.Precomputed.Qinv}
 	}
 	ecD := func(code uint32) *big.Int { return big.NewInt(int64(1000 + code)) }
 	defBytes := func(kind string) []byte {
@@ -248,31 +251,31 @@ func genShapes(env *keyEnv) []genShape {
 		}
 		return []byte{1, 2, 3, 4}
 	}
-	material := func(kind string, mask int) *shMaterial {
-		m := &shMaterial{}
+	material := func(kind string, mask int) *keyShMaterial {
+		m := &keyShMaterial{}
 		if mask&1 != 0 {
-			m.bytes = bp(defBytes(kind))
+			m.bytes = keyBp(defBytes(kind))
 		}
 		if mask&2 != 0 {
-			m.sym = bp([]byte{9, 8, 7, 6, 5, 4, 3, 2})
+			m.sym = keyBp([]byte{9, 8, 7, 6, 5, 4, 3, 2})
 		}
 		if mask&4 != 0 {
 			m.rsaPriv = validRsaPriv()
 		}
 		if mask&8 != 0 {
-			m.rsaPub = &shRsaPub{n: rk.N, e: big.NewInt(int64(rk.E))}
+			m.rsaPub = &keyShRsaPub{n: rk.N, e: big.NewInt(int64(rk.E))}
 		}
 		if mask&16 != 0 {
-			m.ecdsaPriv = &shEcPriv{curve: 7, d: ecD(7)}
+			m.ecdsaPriv = &keyShEcPriv{curve: 7, d: ecD(7)}
 		}
 		if mask&32 != 0 {
-			m.ecdsaPub = &shEcPub{curve: 7, q: bl.byName["u7"]}
+			m.ecdsaPub = &keyShEcPub{curve: 7, q: bl.byName["u7"]}
 		}
 		if mask&64 != 0 {
-			m.ecPriv = &shEcPriv{curve: 10, d: ecD(10)}
+			m.ecPriv = &keyShEcPriv{curve: 10, d: ecD(10)}
 		}
 		if mask&128 != 0 {
-			m.ecPub = &shEcPub{curve: 10, q: bl.byName["u10"]}
+			m.ecPub = &keyShEcPub{curve: 10, q: bl.byName["u10"]}
 		}
 		return m
 	}
@@ -281,7 +284,7 @@ func genShapes(env *keyEnv) []genShape {
 	for _, kind := range kinds {
 		for _, f := range formats {
 			for _, kv := range []string{"n", "-", "w"} {
-				o := &shObj{kind: kind, ty: 1, kb: shKeyBlock{format: f, hasKV: kv != "n", wrapped: kv == "w"}}
+				o := &keyShObj{kind: kind, ty: 1, kb: keyShKeyBlock{format: f, hasKV: kv != "n", wrapped: kv == "w"}}
 				add(o, true)
 			}
 		}
@@ -305,14 +308,14 @@ func genShapes(env *keyEnv) []genShape {
 				if i%2 == 1 {
 					attrs = 2
 				}
-				add(&shObj{kind: kind, kb: shKeyBlock{format: f, hasKV: true, wrapped: i%7 == 3, plain: material(kind, m), attrs: attrs}}, true)
+				add(&keyShObj{kind: kind, kb: keyShKeyBlock{format: f, hasKV: true, wrapped: i%7 == 3, plain: material(kind, m), attrs: attrs}}, true)
 			}
 		}
 	}
 	for _, kind := range []string{"sk", "sd", "sp", "pg"} {
 		for _, f := range []uint32{1, 2, 3, 7, 10, 20, 99} {
 			for _, m := range []int{0, 1, 2, 3, 255} {
-				add(&shObj{kind: kind, ty: 1, kb: shKeyBlock{format: f, hasKV: true, plain: material(kind, m), attrs: 1}}, true)
+				add(&keyShObj{kind: kind, ty: 1, kb: keyShKeyBlock{format: f, hasKV: true, plain: material(kind, m), attrs: 1}}, true)
 			}
 		}
 	}
@@ -327,14 +330,14 @@ func genShapes(env *keyEnv) []genShape {
 			}
 			contents = append(contents, garbage...)
 			for _, c := range contents {
-				add(&shObj{kind: kind, kb: shKeyBlock{format: f, hasKV: true, plain: &shMaterial{bytes: bp(c)}}}, true)
+				add(&keyShObj{kind: kind, kb: keyShKeyBlock{format: f, hasKV: true, plain: &keyShMaterial{bytes: keyBp(c)}}}, true)
 			}
 		}
 	}
 	for _, c := range append([][]byte{{1, 2, 3}}, garbage...) {
 		for _, f := range []uint32{1, 2, 7} {
-			add(&shObj{kind: "sk", kb: shKeyBlock{format: f, hasKV: true, plain: &shMaterial{bytes: bp(c), sym: bp(c)}}}, true)
-			add(&shObj{kind: "sd", ty: 1, kb: shKeyBlock{format: f, hasKV: true, plain: &shMaterial{bytes: bp(c)}}}, true)
+			add(&keyShObj{kind: "sk", kb: keyShKeyBlock{format: f, hasKV: true, plain: &keyShMaterial{bytes: keyBp(c), sym: keyBp(c)}}}, true)
+			add(&keyShObj{kind: "sd", ty: 1, kb: keyShKeyBlock{format: f, hasKV: true, plain: &keyShMaterial{bytes: keyBp(c)}}}, true)
 		}
 	}
 	// transparent RSA private key: every subset of the optional big integers
@@ -346,17 +349,17 @@ func genShapes(env *keyEnv) []genShape {
 				*p = nil
 			}
 		}
-		add(&shObj{kind: "pr", kb: shKeyBlock{format: 10, hasKV: true, plain: &shMaterial{rsaPriv: t}}}, true)
+		add(&keyShObj{kind: "pr", kb: keyShKeyBlock{format: 10, hasKV: true, plain: &keyShMaterial{rsaPriv: t}}}, true)
 	}
-	two63 := new(big.Int).Lsh(bigOne, 63)
+	two63 := new(big.Int).Lsh(keyBigOne, 63)
 	b := big.NewInt
-	for _, e := range []*big.Int{two63, new(big.Int).Sub(two63, bigOne), new(big.Int).Neg(two63), new(big.Int).Sub(new(big.Int).Neg(two63), bigOne), b(0), b(-3), new(big.Int).Lsh(bigOne, 200)} {
+	for _, e := range []*big.Int{two63, new(big.Int).Sub(two63, keyBigOne), new(big.Int).Neg(two63), new(big.Int).Sub(new(big.Int).Neg(two63), keyBigOne), b(0), b(-3), new(big.Int).Lsh(keyBigOne, 200)} {
 		t := validRsaPriv()
 		t.e = e
-		add(&shObj{kind: "pr", kb: shKeyBlock{format: 10, hasKV: true, plain: &shMaterial{rsaPriv: t}}}, false)
-		add(&shObj{kind: "pu", kb: shKeyBlock{format: 11, hasKV: true, plain: &shMaterial{rsaPub: &shRsaPub{n: rk.N, e: e}}}}, false)
+		add(&keyShObj{kind: "pr", kb: keyShKeyBlock{format: 10, hasKV: true, plain: &keyShMaterial{rsaPriv: t}}}, false)
+		add(&keyShObj{kind: "pu", kb: keyShKeyBlock{format: 11, hasKV: true, plain: &keyShMaterial{rsaPub: &keyShRsaPub{n: rk.N, e: e}}}}, false)
 	}
-	for _, g := range []*shRsaPriv{
+	for _, g := range []*keyShRsaPriv{
 		{n: b(0), d: b(0), e: b(0), p: b(0), q: b(0)},
 		{n: b(35), d: b(5), e: b(5), p: b(5), q: b(7)},
 		{n: b(35), d: b(5), e: b(5), p: b(1), q: b(1), dp: b(0), dq: b(0), qi: b(0)},
@@ -364,11 +367,11 @@ func genShapes(env *keyEnv) []genShape {
 		{n: rk.N, d: rk.D, e: b(int64(rk.E)), p: rk.Primes[1], q: rk.Primes[0], dp: rk.Precomputed.Dp, dq: rk.Precomputed.Dq, qi: rk.Precomputed.Qinv},
 		{n: rk.N, d: b(1), e: b(int64(rk.E)), p: rk.Primes[0], q: rk.Primes[1]},
 	} {
-		add(&shObj{kind: "pr", kb: shKeyBlock{format: 10, hasKV: true, plain: &shMaterial{rsaPriv: g}}}, false)
+		add(&keyShObj{kind: "pr", kb: keyShKeyBlock{format: 10, hasKV: true, plain: &keyShMaterial{rsaPriv: g}}}, false)
 	}
-	add(&shObj{kind: "pu", kb: shKeyBlock{format: 11, hasKV: true, plain: &shMaterial{rsaPub: &shRsaPub{n: rk.N, e: b(int64(rk.E))}}}}, true)
-	add(&shObj{kind: "pu", kb: shKeyBlock{format: 11, hasKV: true, plain: &shMaterial{rsaPub: &shRsaPub{n: b(0), e: b(0)}}}}, false)
-	add(&shObj{kind: "pu", kb: shKeyBlock{format: 11, hasKV: true, plain: &shMaterial{rsaPub: &shRsaPub{n: b(-7), e: b(-1)}}}}, false)
+	add(&keyShObj{kind: "pu", kb: keyShKeyBlock{format: 11, hasKV: true, plain: &keyShMaterial{rsaPub: &keyShRsaPub{n: rk.N, e: b(int64(rk.E))}}}}, true)
+	add(&keyShObj{kind: "pu", kb: keyShKeyBlock{format: 11, hasKV: true, plain: &keyShMaterial{rsaPub: &keyShRsaPub{n: b(0), e: b(0)}}}}, false)
+	add(&keyShObj{kind: "pu", kb: keyShKeyBlock{format: 11, hasKV: true, plain: &keyShMaterial{rsaPub: &keyShRsaPub{n: b(-7), e: b(-1)}}}}, false)
 	// transparent EC keys
 	curves := []uint32{4, 7, 10, 13, 0, 1, 99}
 	for _, f := range []uint32{14, 20} {
@@ -381,25 +384,25 @@ func genShapes(env *keyEnv) []genShape {
 					bytesLen = (order.BitLen() + 7) / 8
 				}
 			}
-			over := new(big.Int).Lsh(bigOne, uint(8*bytesLen))
+			over := new(big.Int).Lsh(keyBigOne, uint(8*bytesLen))
 			type dv struct {
 				d   *big.Int
 				pem bool
 			}
-			ds := []dv{{ecD(c), true}, {b(0), false}, {b(-5), false}, {over, order != nil}, {new(big.Int).Add(over, b(12345)), order != nil},
-				{new(big.Int).Neg(over), order != nil}, {new(big.Int).Sub(over, bigOne), false}}
+			ds := []dv{{ecD(c), true}, {b(0), true}, {b(-5), true}, {over, true}, {new(big.Int).Add(over, b(12345)), true},
+				{new(big.Int).Neg(over), true}, {new(big.Int).Sub(over, keyBigOne), true}}
 			if order != nil {
-				ds = append(ds, dv{order, false}, dv{new(big.Int).Sub(order, bigOne), true})
+				ds = append(ds, dv{order, true}, dv{new(big.Int).Sub(order, keyBigOne), true}, dv{new(big.Int).Add(order, keyBigOne), true}, dv{keyBigOne, true})
 			}
 			for _, d := range ds {
-				t := &shEcPriv{curve: c, d: d.d}
-				m := &shMaterial{}
+				t := &keyShEcPriv{curve: c, d: d.d}
+				m := &keyShMaterial{}
 				if f == 14 {
 					m.ecdsaPriv = t
 				} else {
 					m.ecPriv = t
 				}
-				add(&shObj{kind: "pr", kb: shKeyBlock{format: f, hasKV: true, plain: m}}, d.pem)
+				add(&keyShObj{kind: "pr", kb: keyShKeyBlock{format: f, hasKV: true, plain: m}}, d.pem)
 			}
 		}
 	}
@@ -415,31 +418,31 @@ func genShapes(env *keyEnv) []genShape {
 					continue
 				}
 				for _, comp := range []uint32{0, 1, 2, 3, 4, 9} {
-					t := &shEcPub{curve: c, q: q}
-					m := &shMaterial{}
+					t := &keyShEcPub{curve: c, q: q}
+					m := &keyShMaterial{}
 					if f == 15 {
 						m.ecdsaPub = t
 					} else {
 						m.ecPub = t
 					}
-					add(&shObj{kind: "pu", kb: shKeyBlock{format: f, comp: comp, hasKV: true, plain: m}}, true)
+					add(&keyShObj{kind: "pu", kb: keyShKeyBlock{format: f, comp: comp, hasKV: true, plain: m}}, true)
 				}
 			}
 		}
 	}
 	for _, ty := range []uint32{1, 2, 0} {
 		for _, c := range append([][]byte{bl.byName["cert"], bl.byName["pkixrsa"]}, garbage...) {
-			add(&shObj{kind: "ce", ty: ty, cert: c}, true)
+			add(&keyShObj{kind: "ce", ty: ty, cert: c}, true)
 		}
 	}
-	add(&shObj{kind: "op"}, true)
-	add(&shObj{kind: "te"}, true)
-	add(&shObj{kind: "nil"}, true)
+	add(&keyShObj{kind: "op"}, true)
+	add(&keyShObj{kind: "te"}, true)
+	add(&keyShObj{kind: "nil"}, true)
 	return out
 }
 
-func runAccessPart(env *keyEnv) {
-	shapes := genShapes(env)
+func keyRunAccessPart(env *keyEnv) {
+	shapes := keyGenShapes(env)
 	for _, gs := range shapes {
 		o := gs.o
 		nat := o.naturalType()
@@ -460,7 +463,7 @@ func runAccessPart(env *keyEnv) {
 		}
 		for _, ot := range otypes {
 			pl := &payloads.GetResponsePayload{ObjectType: kmip.ObjectType(ot), UniqueIdentifier: "id", Object: o.toGo()}
-			accessCase(env, pl, gs.pemModel, "raw", "")
+			keyAccessCase(env, pl, gs.pemModel, "raw", "")
 		}
 		if o.kind == "nil" {
 			continue
@@ -472,12 +475,12 @@ func runAccessPart(env *keyEnv) {
 			}
 			for _, v := range vers {
 				pl := &payloads.GetResponsePayload{ObjectType: kmip.ObjectType(nat), UniqueIdentifier: "id", Object: o.toGo()}
-				back, ok := transportPayload(enc, v, pl)
+				back, ok := keyTransportPayload(enc, v, pl)
 				if !ok {
 					env.ctx.Res.Count("access.undecodable." + enc.name)
 					continue
 				}
-				accessCase(env, back, gs.pemModel, enc.name, "")
+				keyAccessCase(env, back, gs.pemModel, enc.name, "")
 			}
 		}
 	}
